@@ -233,8 +233,9 @@ theorem exec_winQuery (q : Nat) (env : Env) (b l : String) (hb : b.isEmpty = fal
     · -- keys
       intro L hL _
       obtain ⟨rid, p, rfl⟩ := hTy L hL
-      simp only [winGroup, List.map_cons, List.map_nil, evalExprs, evalExpr, exec_bind, exec_pure, exec_liftR_ok,
-        lookup_mv _ b rid p rfl "accounts_address" (.text p.2.account) rfl, lookup_mv _ b rid p rfl "asset" (.text p.2.asset) rfl]
+      have c1 := lookup_mv { env with locals := [mvScope b rid p] } b rid p rfl "accounts_address" (.text p.2.account) rfl
+      have c2 := lookup_mv { env with locals := [mvScope b rid p] } b rid p rfl "asset" (.text p.2.asset) rfl
+      simp only [winGroup, List.map_cons, List.map_nil, evalExprs, evalExpr, exec_bind, exec_pure, exec_liftR_ok, c1, c2]
       simp [keyL, decL_mvScope, kvKey, MoveRow.key]
     · exact sameGroupKey_kvKey
     · rfl
@@ -252,10 +253,10 @@ theorem exec_winQuery (q : Nat) (env : Env) (b l : String) (hb : b.isEmpty = fal
       have hh : G.headD [] = [mvScope b rid p] := by rw [hGe]; rfl
       have c1 := lookup_mv { env with locals := G.headD [], group := some G, wins := [] } b rid p hh "asset" (.text p.2.asset) rfl
       have c2 := lookup_mv { env with locals := G.headD [], group := some G, wins := [] } b rid p hh "accounts_address" (.text p.2.account) rfl
-      simp only [winItems, List.map_cons, List.map_nil, evalExprs, exec_bind, exec_pure, e1, e2, e3]
-      simp only [evalExpr, c1, c2, exec_liftR_ok, exec_bind, exec_pure]
-      rw [hGe, winProj_cons, ← hGe, sumDeltas_bal, sumDeltas_in, sumDeltas_out]
-      rfl
+      simp only [winItems, List.map_cons, List.map_nil, evalExprs, exec_bind, exec_pure]
+      simp only [evalExpr, c1, c2, exec_liftR_ok, exec_bind, exec_pure, e1, e2, e3]
+      rw [hGe, winProj_cons, ← hGe]
+      simp only [winRow, sumDeltas_bal, sumDeltas_in, sumDeltas_out, MoveRow.key]
     · rw [hR]; exact hsortEq
   have hset : (evalSetExpr (q + 5) env (SetExpr.select (Select.mk false [] (winItems.map (fun p => SelItem.expr p.1 p.2))
       [FromItem.table b "moves" ""] (some (winWhere l (dateCol mode) (pitT.map Prod.fst) (ootT.map Prod.fst))) (winGroup.map (Expr.col "")) none))
@@ -274,12 +275,9 @@ theorem exec_winQuery (q : Nat) (env : Env) (b l : String) (hb : b.isEmpty = fal
   have hkeysPerm : (sorted.map (fun o => keyL o.locals)).Perm (firstKeys (R.map keyL)) := by
     have h1 := hperm.map (fun o => keyL o.locals)
     refine h1.trans ?_
-    rw [List.map_map]
     unfold groupsOf
-    rw [List.map_map]
-    have : (firstKeys (R.map keyL)).map ((fun o => keyL o.locals) ∘ outRowOfG winProj ∘ fun k => R.filter (fun r => decide (keyL r = k))) =
-        (firstKeys (R.map keyL)).map id := by
-      apply List.map_congr_left
+    rw [List.map_map, List.map_map]
+    have : ∀ k ∈ firstKeys (R.map keyL), keyL (outRowOfG winProj (R.filter (fun r => decide (keyL r = k)))).locals = k := by
       intro k hk
       rw [mem_firstKeys] at hk
       have hG : R.filter (fun r => decide (keyL r = k)) ∈ groupsOf keyL R := by
@@ -289,18 +287,17 @@ theorem exec_winQuery (q : Nat) (env : Env) (b l : String) (hb : b.isEmpty = fal
       have hmem : [mvScope b rid p] ∈ R.filter (fun r => decide (keyL r = k)) := by rw [hGe]; simp
       have hkk := (List.mem_filter.mp hmem).2
       simp only [decide_eq_true_eq, keyL, decL_mvScope] at hkk
-      simp only [Function.comp, id]
       rw [hGe]
       simp [outRowOfG, outRowOfU, keyL, decL_mvScope, hkk]
-    rw [this, List.map_id]
+    simp only [Function.comp_def]
+    rw [List.map_congr_left (g := id) (fun k hk => this k hk), List.map_id]
   refine ⟨sorted.map (fun o => keyL o.locals), tie, ?_, ?_, ?_, ?_⟩
   · simp only [winQuery]
-    rw [hqry, outNames_win]
-    congr 2
-    rw [List.map_map]
-    apply List.map_congr_left
-    intro o ho
-    exact (hsorted o ho).1
+    rw [hqry, outNames_win, List.map_map]
+    have : sorted.map (fun x => x.vals) =
+        sorted.map ((fun k => winRow k (movesWindowVolumes T W mode k)) ∘ fun o => keyL o.locals) :=
+      List.map_congr_left (fun o ho => (hsorted o ho).1)
+    rw [this]
   · exact hkeysPerm.nodup_iff.mpr (nodup_firstKeys _)
   · intro k
     rw [hkeysPerm.mem_iff, mem_firstKeys, ← hR, keys_group b l W mode Ls hTy]
